@@ -131,7 +131,7 @@ pub fn c03(g: &mut Gen) {
     // total length up to the documented maximum (about usize::MAX): few blocks, and many blocks
     for (runs, len) in [
         (vec![(0u64, 1u64)], (1u64 << 63) - 1), (vec![(0, 1)], 1 << 63), (vec![(5, 3)], MAXU), (vec![(0, 1 << 62), ((1 << 62) + 5, 1 << 61)], MAXU - 1),
-        (vec![(MAXU - 10, 5)], MAXU), (vec![(1 << 63, 1 << 62)], MAXU),
+        (vec![(MAXU - 10, 5)], MAXU), (vec![(1 << 63, 1 << 62)], MAXU), (vec![(MAXU - 5, 5)], MAXU), (vec![(3, 4), (MAXU - 1, 1)], MAXU), (vec![(0, MAXU)], MAXU),
     ] {
         let mut lines = vec![format!("rl A build : {}", runs_calls(&runs, Some(len)))];
         rl_queries(g, "A", &runs, len, 8, &mut lines);
@@ -205,7 +205,9 @@ pub fn c10_rl(g: &mut Gen) {
 
 pub fn c16_rl(g: &mut Gen) {
     let depth = if g.thorough { 5 } else { 4 };
-    let alphabet: Vec<String> = vec!["s0,1", "s1,2", "s3,0", "s5,3", "s8,1", "s2,2", "l4", "l8", "l10", "l0", "s10,5", "s18446744073709551615,1", "s7,18446744073709551610"]
+    // (the last three: a run ending exactly at usize::MAX, the empty run at usize::MAX, the full-length run — all legal)
+    let alphabet: Vec<String> = vec!["s0,1", "s1,2", "s3,0", "s5,3", "s8,1", "s2,2", "l4", "l8", "l10", "l0", "s10,5", "s18446744073709551615,1", "s7,18446744073709551610",
+                                     "s18446744073709551605,10", "s18446744073709551615,0", "s0,18446744073709551615"]
         .into_iter().map(|s| s.to_string()).collect();
     let mut lines = Vec::new();
     for d in 0..=depth {
